@@ -37,6 +37,7 @@ var interpPkgs = map[string]bool{
 	"github.com/pkg/errors":           false,
 	"encoding/binary":                 true,
 	"math/bits":                       true,
+	"sync/atomic":                     true,
 	"github.com/google/go-cmp/cmp":    false,
 	"github.com/censync/go-dto":       false,
 	"github.com/censync/go-validator": false,
@@ -162,6 +163,11 @@ func (P *Program) interpretable(fn *ssa.Function) bool {
 	}
 	if interpFns[fn.String()] {
 		return true
+	}
+	for p := fn.Parent(); p != nil; p = p.Parent() {
+		if interpFns[p.String()] { // closures of interpreted library functions
+			return true
+		}
 	}
 	if o := fn.Origin(); o != nil && interpFns[o.String()] {
 		return true
